@@ -14,7 +14,9 @@ from common import show_list, frac_str
 LEVEL = "other"
 LEAN_PROPS = ["FastTicc.Props.C02", "FastTicc.Props.Compose", "FastTicc.Props.C03", "FastTicc.Props.C11", "FastTicc.Props.C18", "FastTicc.Props.C02matrix", "FastTicc.Props.C02opt", "FastTicc.Props.AdmmSolve", "FastTicc.Props.C02conv"]
 LEAN_HELPERS = ["FastTicc.Proofs.Admm", "FastTicc.Proofs.Compose", "FastTicc.Proofs.AdmmMatrix", "FastTicc.Proofs.LogDet"]
-LEAN_TRANSLATED = {"FastTicc.Props.TrSoft": ["soft_threshold_prox"]}
+LEAN_TRANSLATED = {"FastTicc.Props.TrSoft": ["soft_threshold_prox"],
+                   "FastTicc.Props.TrZUpdate": ["soft_threshold_prox", "compute_lambda_sum", "admm_update_z", "locations_compressed",
+                                                "locations_index_slices"]}
 RULE = ("(a) step functions (soft threshold, lambda sum, Z update, U update, stopping rule) on dyadic inputs for all (N,W) "
         "with NW<=8 (thorough: <=24), scalar and matrix lambda, rho in {1/8..8}, vs the model at Rat; X update against its "
         "stationarity characterisation; (b) the entry point on generated PSD covariances (full rank, rank deficient, "
@@ -106,6 +108,7 @@ def _run_main(ctx):
             shapes = [tuple(replay["NW"])]
         reps = 2 if ctx.quick() else 6
         lines, meta = [], []
+        gen_z = []
         for (N, W) in shapes:
             n = N * W
             m = n * (n + 1) // 2
@@ -127,6 +130,12 @@ def _run_main(ctx):
                                                max_iterations=10, verbose=False)
                 z = solver.admm_update_z(args, u, x)
                 unew = solver.admm_update_u(u, x, z)
+                # the Z-update TRANSLATED from the source (with the translated lambda sum, class positions and soft
+                # threshold inside), at exact rationals, on the same arguments
+                fl = lambda v: frac_str(Fraction(float(v)))
+                lam_tok = ("m:" + show_list(lam.tolist(), lambda r: show_list(r, fl), ";")) if use_matrix else ("s:" + fl(lam))
+                gen_z.append((f"{W}~{N}~{fl(rho)}~{lam_tok} {show_list(u, fl)} {show_list(x, fl)}",
+                              "ok " + show_list(z, fl), {"step": True, "NW": [N, W], "rep": rep}))
                 lines.append(f"zupdate {frac_str(Fraction(rho))} {lam_s} {N} {W} "
                              f"{show_list(u, lambda v: frac_str(Fraction(float(v))))} {show_list(x, lambda v: frac_str(Fraction(float(v))))}")
                 meta.append(("z", (N, W, rep), z))
@@ -169,6 +178,7 @@ def _run_main(ctx):
             if len(mv) != len(impl) or not all(oracles.rel_close(a, b, 1e-12, 1e-12) for a, b in zip(impl, mv)):
                 ctx.violation("correspondence-break", f"{'zUpdate' if kind == 'z' else 'uUpdate'} vs implementation",
                               {"step": True, "NW": list(key[:2]), "rep": key[2]})
+        ctx.gen_compare("admm_update_z", gen_z, tol=1e-12)
         # scalar helpers
         lines, impl = [], []
         for _ in range(200 if ctx.quick() else 2000):
